@@ -1,0 +1,194 @@
+//! Verification hooks (only built with `--cfg woodpile_verif`): stand-ins
+//! for [`std::sync::atomic::AtomicU64`] and [`std::sync::Mutex`] used by
+//! `atomic_base_time`.  They pass through to `std` while no scheduler is
+//! registered on the current thread; otherwise every atomic access and
+//! lock operation is routed through the registered scheduler / memory
+//! model, which decides the value each load returns.
+use std::cell::RefCell;
+use std::sync::atomic::Ordering;
+use std::sync::{LockResult, PoisonError, TryLockError, TryLockResult};
+
+/// What a registered scheduler must implement.  `addr` identifies the
+/// atomic / mutex (its address).
+pub trait Scheduler {
+    /// An atomic load; returns the value the load observes.
+    fn load(&mut self, addr: usize, order: Ordering, real: u64) -> u64;
+    /// An atomic store.
+    fn store(&mut self, addr: usize, order: Ordering, value: u64);
+    /// A lock attempt.  `blocking`: `lock()` (must not return until acquired), else `try_lock()`.
+    /// Returns `(acquired, poisoned)`.
+    fn lock(&mut self, addr: usize, blocking: bool) -> (bool, bool);
+    /// Clears the poison flag.
+    fn clear_poison(&mut self, addr: usize);
+    /// A guard is dropped; `panicking`: the holder is unwinding from a genuine panic.
+    fn unlock(&mut self, addr: usize, panicking: bool);
+}
+
+thread_local! {
+    static SCHEDULER: RefCell<Option<Box<dyn Scheduler>>> = const { RefCell::new(None) };
+}
+
+/// Registers (or, with `None`, removes) the scheduler for the current thread; returns the previous one.
+pub fn set_scheduler(s: Option<Box<dyn Scheduler>>) -> Option<Box<dyn Scheduler>> {
+    SCHEDULER.with(|cell| std::mem::replace(&mut *cell.borrow_mut(), s))
+}
+
+fn with_scheduler<R>(f: impl FnOnce(&mut dyn Scheduler) -> R) -> Option<R> {
+    SCHEDULER.with(|cell| match cell.try_borrow_mut() {
+        Ok(mut guard) => guard.as_mut().map(|s| f(s.as_mut())),
+        Err(_) => None,
+    })
+}
+
+/// Stand-in for [`std::sync::atomic::AtomicU64`].
+#[derive(Debug)]
+pub struct AtomicU64 {
+    inner: std::sync::atomic::AtomicU64,
+}
+
+impl AtomicU64 {
+    /// See [`std::sync::atomic::AtomicU64::new`].
+    pub const fn new(value: u64) -> Self {
+        Self {
+            inner: std::sync::atomic::AtomicU64::new(value),
+        }
+    }
+
+    /// See [`std::sync::atomic::AtomicU64::load`].
+    pub fn load(&self, order: Ordering) -> u64 {
+        let real = self.inner.load(order);
+        let addr = self as *const _ as usize;
+        with_scheduler(|s| s.load(addr, order, real)).unwrap_or(real)
+    }
+
+    /// See [`std::sync::atomic::AtomicU64::store`].
+    pub fn store(&self, value: u64, order: Ordering) {
+        let addr = self as *const _ as usize;
+        let _ = with_scheduler(|s| s.store(addr, order, value));
+        self.inner.store(value, order);
+    }
+}
+
+/// Stand-in for [`std::sync::Mutex`].
+#[derive(Debug)]
+pub struct Mutex<T> {
+    inner: std::sync::Mutex<T>,
+}
+
+/// Stand-in for [`std::sync::MutexGuard`].
+#[derive(Debug)]
+pub struct MutexGuard<'a, T> {
+    guard: Option<std::sync::MutexGuard<'a, T>>,
+    addr: usize,
+    scheduled: bool,
+}
+
+impl<T> Mutex<T> {
+    /// See [`std::sync::Mutex::new`].
+    pub const fn new(value: T) -> Self {
+        Self {
+            inner: std::sync::Mutex::new(value),
+        }
+    }
+
+    fn addr(&self) -> usize {
+        self as *const _ as usize
+    }
+
+    fn real_guard(&self) -> std::sync::MutexGuard<'_, T> {
+        // Under a scheduler only one thread runs, the simulated lock state decides who may
+        // acquire, and poisoning is simulated as well.
+        self.inner.clear_poison();
+        match self.inner.try_lock() {
+            Ok(guard) => guard,
+            Err(TryLockError::Poisoned(e)) => e.into_inner(),
+            Err(TryLockError::WouldBlock) => panic!("verif_sync: simulated and real lock state disagree"),
+        }
+    }
+
+    /// See [`std::sync::Mutex::lock`].
+    pub fn lock(&self) -> LockResult<MutexGuard<'_, T>> {
+        let addr = self.addr();
+        match with_scheduler(|s| s.lock(addr, true)) {
+            Some((acquired, poisoned)) => {
+                assert!(acquired, "a blocking lock() returns only once acquired");
+                let guard = MutexGuard {
+                    guard: Some(self.real_guard()),
+                    addr,
+                    scheduled: true,
+                };
+                if poisoned {
+                    Err(PoisonError::new(guard))
+                } else {
+                    Ok(guard)
+                }
+            }
+            None => match self.inner.lock() {
+                Ok(guard) => Ok(MutexGuard { guard: Some(guard), addr, scheduled: false }),
+                Err(e) => Err(PoisonError::new(MutexGuard { guard: Some(e.into_inner()), addr, scheduled: false })),
+            },
+        }
+    }
+
+    /// See [`std::sync::Mutex::try_lock`].
+    pub fn try_lock(&self) -> TryLockResult<MutexGuard<'_, T>> {
+        let addr = self.addr();
+        match with_scheduler(|s| s.lock(addr, false)) {
+            Some((false, _)) => Err(TryLockError::WouldBlock),
+            Some((true, poisoned)) => {
+                let guard = MutexGuard {
+                    guard: Some(self.real_guard()),
+                    addr,
+                    scheduled: true,
+                };
+                if poisoned {
+                    Err(TryLockError::Poisoned(PoisonError::new(guard)))
+                } else {
+                    Ok(guard)
+                }
+            }
+            None => match self.inner.try_lock() {
+                Ok(guard) => Ok(MutexGuard { guard: Some(guard), addr, scheduled: false }),
+                Err(TryLockError::Poisoned(e)) => Err(TryLockError::Poisoned(PoisonError::new(MutexGuard {
+                    guard: Some(e.into_inner()),
+                    addr,
+                    scheduled: false,
+                }))),
+                Err(TryLockError::WouldBlock) => Err(TryLockError::WouldBlock),
+            },
+        }
+    }
+
+    /// See [`std::sync::Mutex::clear_poison`].
+    pub fn clear_poison(&self) {
+        let addr = self.addr();
+        if with_scheduler(|s| s.clear_poison(addr)).is_none() {
+            self.inner.clear_poison();
+        }
+    }
+}
+
+impl<T> std::ops::Deref for MutexGuard<'_, T> {
+    type Target = T;
+
+    fn deref(&self) -> &T {
+        self.guard.as_ref().expect("guard is live")
+    }
+}
+
+impl<T> std::ops::DerefMut for MutexGuard<'_, T> {
+    fn deref_mut(&mut self) -> &mut T {
+        self.guard.as_mut().expect("guard is live")
+    }
+}
+
+impl<T> Drop for MutexGuard<'_, T> {
+    fn drop(&mut self) {
+        if self.scheduled {
+            let addr = self.addr;
+            let _ = with_scheduler(|s| s.unlock(addr, std::thread::panicking()));
+            // (if we are unwinding, dropping the real guard poisons the real mutex;
+            // `real_guard` clears that: under a scheduler poisoning is simulated)
+        }
+    }
+}
